@@ -70,7 +70,17 @@ int main(int argc, char** argv) {
       const bool lightsq = r.chance(0.3);
       gen::MssmPoint p = gen::rand_mssm(r, 100, r.chance(0.5) ? 1000 : 4000, 1.5, 80, lightsq ? 1.0 : 3.0);
       if (r.chance(0.2)) { p.Au[2] *= 3; p.Ad[2] *= 3; p.Ae[2] *= 3; }   // large third-generation mixing
-      J c = p.json();
+      // extreme hierarchies: one to three mass parameters moved by up to 4 decades (decoupled gluino/squarks/higgsino, very light states)
+      const bool hier = r.chance(0.3);
+      if (hier) {
+         double* q[] = {&p.mu, &p.m1, &p.m2, &p.m3, &p.ma, &p.ml[0], &p.ml[1], &p.ml[2], &p.me[0], &p.me[1], &p.me[2], &p.mq[0], &p.mq[1], &p.mq[2], &p.mU[0], &p.mU[1], &p.mU[2], &p.mD[0], &p.mD[1], &p.mD[2], &p.Ae[1], &p.Ae[2], &p.Au[2], &p.Ad[2], &p.Q};
+         const int n = 1 + r.range(3);
+         // (each parameter moved at most once and by at most 4 decades: the lightest eigenvalue of a mass matrix is determined to eps x (largest/smallest entry) only,
+         //  which has to stay well below the 1e-9 of the property)
+         bool used[25] = {false};
+         for (int k = 0; k < n; ++k) { const int j = r.chance(0.3) ? 3 : r.range(25); if (used[j]) continue; used[j] = true; *q[j] *= r.chance(0.8) ? std::pow(10.0, r.U(1, 4)) : std::pow(10.0, -r.U(0.5, 1.5)); }
+      }
+      J c = p.json(); c.i("hierarchy", hier);
       try {
          MSSMNoFV_onshell m1 = gen::make_mssm(p, 1, +1), m2 = gen::make_mssm(p, 1, -1);
          if (m1.get_problems().have_problem() || m2.get_problems().have_problem()) { ++o.inconclusive; o.count("problem-flagged"); continue; }
@@ -78,7 +88,7 @@ int main(int argc, char** argv) {
          const std::vector<Q> q1 = observe(m1, S1a), q2 = observe(m2, S1b);
          const double S1 = std::max(S1a, S1b);
          ++o.conclusive;
-         const std::string sg = std::string("sgn") + (p.mu > 0 ? "+" : "-") + (p.m1 > 0 ? "+" : "-") + (p.m2 > 0 ? "+" : "-") + (p.m3 > 0 ? "+" : "-");
+         const std::string sg = std::string("sgn") + (p.mu > 0 ? "+" : "-") + (p.m1 > 0 ? "+" : "-") + (p.m2 > 0 ? "+" : "-") + (p.m3 > 0 ? "+" : "-") + (hier ? "|hierarchy" : "");
          // arrays of couplings are compared on the scale of their largest entry
          double smax_aan = 0, smax_bbn = 0;
          for (size_t k = 0; k < q1.size(); ++k) if (q1[k].kind == 4) { double& s = (q1[k].name[0] == 'A') ? smax_aan : smax_bbn; s = std::max({s, std::fabs(q1[k].v), std::fabs(q2[k].v)}); }
@@ -86,7 +96,10 @@ int main(int argc, char** argv) {
             const double x = q1[k].v, y = q2[k].v;
             double den = std::max(std::fabs(x), std::fabs(y));
             if (q1[k].kind == 1) den = std::max(den, S1);
-            else if (q1[k].kind == 0) den = std::max(den, 1e-3 * S1);
+            // the two-loop totals contain the photonic corrections, sum_i c_i x (one-loop term i) with |c_i| ~ 0.07: they inherit the rounding error of the one-loop terms
+            // (observed up to 3e-11 S1 on ordinary points - loop-function branch borders - and eps x condition of the mass matrices x S1 on hierarchical ones), so their
+            // error scale is 0.1 S1; the other two-loop pieces are compared on 1e-3 S1 (0.1 S1 for hierarchical points)
+            else if (q1[k].kind == 0) den = std::max(den, ((hier || q1[k].name.compare(0, 9, "amu_2loop") == 0) ? 1e-1 : 1e-3) * S1);
             else if (q1[k].kind == 2) den = std::max(den, 1e-6);
             else if (q1[k].kind == 4) den = std::max(den, (q1[k].name[0] == 'A') ? smax_aan : smax_bbn);
             double e = vh::same_bits(x, y) ? 0 : std::fabs(x - y) / std::max(den, 1e-300);
